@@ -410,9 +410,9 @@ Definition finish (n : nat) (acc : iacc) : report :=
     (map (fun i => (aget (i_rcounts acc) i (-1), aget (i_rsegs acc) i 0)) (zrange (i_maxref acc + 1))).
 
 (* get-torch-spect-data-dir-info [--strict | --fix [N]]: the data set is built without sos/eos,
-   suppress_alis=False, tokens_only=False; validate = "options.strict or options.fix" (an int!) *)
-Definition cli_validates (strict : bool) (fx : option Z) : bool :=
-  strict || match fx with Some k => negb (k =? 0) | None => false end.
+   suppress_alis=False, tokens_only=False; validate = "options.strict or options.fix is not None"
+   (since /repo commit 0bbdd7f; before it "--fix 0" was falsy and skipped validation, finding F12) *)
+Definition cli_validates (strict : bool) (fx : option Z) : bool := strict || is_some fx.
 
 Definition cli_info (strict : bool) (fx : option Z) (d : dir) : dir * (exn + report) :=
   let '(d', r) := run_pass true (cli_validates strict fx) cfg_plain fx st0 acc0 d in
